@@ -618,6 +618,9 @@ def get_attr(self, st, base, attr, node, default=KeyError):
         if attr == "__dict__":
             return [(st, "val", Top("__dict__"))]
         if isinstance(o.cls, ClassInfo):
+            for c in o.cls.mro():
+                if isinstance(c, ClassInfo) and (c.name + "." + attr) in self.attr_stubs:
+                    return self.attr_stubs[c.name + "." + attr](self, st, base, node)
             hook = self.stubs.get(o.cls.name + ".__getattr__")
             m = o.cls.lookup(attr)
             if m is not None:
@@ -636,6 +639,8 @@ def get_attr(self, st, base, attr, node, default=KeyError):
                     return [(st, "val", Top("classconst:" + attr))]
             if hook is not None:
                 return hook(self, st, [base, attr, default], {}, node)
+        if (o.clsname() or "") + "." + attr in self.attr_stubs:
+            return self.attr_stubs[(o.clsname() or "") + "." + attr](self, st, base, node)
         if (o.clsname() or "") + "." + attr in self.stubs:
             return [(st, "val", BoundMeth(base, None, attr))]
         if o.open:
